@@ -1,9 +1,9 @@
 """C09 — tokens are always given back and waiting jobs eventually run (one scheduler, in-process token)."""
 from .. import common
-from . import _sched
+from . import _sched, c09files
 
 PROP = "C09"
-MODULES = ["XpmVerif.Properties.C09"]
+MODULES = ["XpmVerif.Properties.C09"] + c09files.MODULES
 GEN = dict(max_jobs=7, max_tokens=3, resubmit=False, markers=True, fail_p=0.3)
 RULE = ('random workloads with up to 3 tokens, failures and aborted starts x random schedules + exhaustive schedules of 5 small workloads; monitors: at quiescence every token shows its total and no job whose request fits is left waiting; non-trivial = some dependency and >= 2 out-of-FIFO deliveries')
 
@@ -14,15 +14,18 @@ def prove(ctx):
 
 def correspond(ctx):
     _sched.run(ctx, PROP, GEN, RULE, 1500, 25000)
+    c09files.correspond(ctx)   # file-based token shared by several schedulers (model M2')
 
 
 def search(ctx):
     _sched.search(ctx, PROP, GEN)
+    c09files.search(ctx)
 
 
 def run_witness(ctx, finding):
-    _sched.run_witness(ctx, PROP, finding)
+    c09files.run_witness(ctx, finding) or _sched.run_witness(ctx, PROP, finding)
 
 
 def replay(ctx, obj):
-    return _sched.replay_events(ctx, PROP, obj)
+    mine = {"failures": [x for x in obj.get("failures", []) if x["case"].get("engine") != "tokeng" and "scenario" not in x["case"]]}
+    return max(c09files.replay(ctx, obj), _sched.replay_events(ctx, PROP, mine))
